@@ -2,6 +2,9 @@ import PyElf.Driver.Json
 import PyElf.Spec.Lists
 import PyElf.Model.Lists
 import PyElf.Model.Env
+import PyElf.Model.ListsInfo
+import PyElf.Model.ListsForest
+import PyElf.Driver.C04
 open Lean
 namespace PyElf.Driver.C07
 open PyElf PyElf.Spec PyElf.Spec.Lists PyElf.Model
@@ -352,6 +355,60 @@ def handle (req : Json) : Except String Json := do
         return Json.mkObj [("model", resJson listsJ m)]
       | _ => throw s!"C07 pair: unknown call {call}"
     | _ => throw "C07 pair: the factory did not return a pair"
+  | "info" =>
+    -- END TO END: a forest description (C04's request format) → `.debug_info` / `.debug_abbrev` from the Spec encoders;
+    -- the composed model (Model/ListsInfo) runs the list code on the units and entries IT decodes from those bytes
+    let what ← jStr req "what"
+    let loc := what == "loc"
+    let ver ← jNat req "ver"
+    let le ← jBool req "le"; let dasz ← jNat req "asz"
+    let data ← jHex req "hex"
+    let tables ← (← jArr req "abbrevs").mapM fun t => do
+      let ds ← (← jArr t "decls").mapM C04.parseDecl
+      return ({ gap := (C04.jHexOpt t "gap").getD [], decls := ds, endLen := C04.jNatD t "end_len" 1 } : Spec.C04.TableDesc)
+    let fsecs := C04.parseSecs ((req.getObjVal? "secs").toOption.getD (Json.mkObj []))
+    let units ← (← jArr req "units").mapM (C04.parseUnitReq (tables.map fun t => (t.decls, t.endLen)))
+    let F := C04.forestOf le tables units [] fsecs
+    let info := Spec.C04.infoSec F
+    let abbr := Spec.C04.encTables F.tables
+    let w := Model.C04.genDInfo le dasz (some info) (some abbr) none fsecs
+    let S0 ← structsFor le 32 dasz 2
+    -- the hypotheses of `debug_info_cus_exact` / `enumeration_exact_*_info` on the description
+    let wf := Spec.C04.wfForestB C04.names F && Lists.forestResolves C04.names F
+    let cusJ := Json.arr ((Lists.forestCus C04.names F).map fun cu =>
+      Json.mkObj [("version", jN cu.version), ("asz", jN cu.asz), ("fmt", jN cu.fmt),
+                  ("dies", Json.arr (cu.dies.map fun d => Json.arr (d.map fun a =>
+                    Json.arr #[Json.str a.name, Json.str a.form, a.raw.toJson]).toArray).toArray)]).toArray
+    let calls ← jArr req "calls"
+    let outs ← calls.mapM fun c => do
+      let call ← jStr c "call"
+      match call with
+      | "cus" =>
+        -- what the list code sees of `.debug_info`: (version, asz, fmt, [(name, form, raw)]) as the MODEL decodes it
+        let m := Lists.infoCus Model.C04.fetch w S0
+        let j : R Json := m.map fun cus => Json.arr (cus.map fun cu =>
+          Json.mkObj [("version", jN cu.version), ("asz", jN cu.asz), ("fmt", jN cu.fmt),
+                      ("dies", Json.arr (cu.dies.map fun d => Json.arr (d.map fun a =>
+                        Json.arr #[Json.str a.name, Json.str a.form, a.raw.toJson]).toArray).toArray)]).toArray
+        pure (resJson id j)
+      | "iter" =>
+        let m := if loc then Lists.infoIterLocationLists Model.C04.fetch w S0 data ver
+                 else Lists.infoIterRangeLists Model.C04.fetch w S0 data ver
+        pure (resJson listsJ m)
+      | "attr" =>
+        let ci ← jNat c "cuidx"; let di ← jNat c "die"; let name ← jStr c "name"
+        let m : R Val := do
+          let (_, a) ← Lists.infoAttr Model.C04.fetch w S0 ci di name
+          if loc then
+            let r ← Lists.infoParseFromAttribute Model.C04.fetch w S0 data ver ci di name
+            return .record [("value", a.value), ("parsed", r)]
+          else
+            let r ← Lists.infoRangeListOfAttribute Model.C04.fetch w S0 data ver ci di name
+            return .record [("value", a.value), ("parsed", .list r)]
+        pure (resJson Val.toJson m)
+      | _ => throw s!"C07 info: unknown call {call}"
+    return Json.mkObj [("info", jHexOf info), ("abbrev", jHexOf abbr), ("wf", Json.bool wf), ("cus", cusJ),
+                       ("models", Json.arr outs.toArray)]
   | "cls" =>
     let name ← jStr req "name"; let form ← jStr req "form"; let ver ← jNat req "ver"
     let cj : LocClass → Json
